@@ -42,6 +42,7 @@ type N struct {
 	M0      Missing // by-type point that no component can satisfy
 	rt      *RT
 	Idx     int
+	Copy    string   // non-empty: this object is a same-type substitute made at that timing
 	lookups []string // names looked up through the container inside Init
 	swallow bool     // a failing look-up is ignored (best-effort warm-up); Init reports its completion
 }
@@ -285,6 +286,7 @@ type Proc struct {
 	Plan  map[string]int
 	cache map[string]Iface
 	fn    bool // substitutes are func-shaped (WF) instead of struct pointers (*W)
+	same  bool // substitutes are fresh instances of the component's own type
 	rt    *RT
 	Snap  map[string]string // slot snapshot per node at before-initialization
 }
@@ -304,6 +306,14 @@ func (p *Proc) mk(c any, name, tag string, share bool) any {
 	var x Iface = &W{Inner: n, Tag: tag}
 	if p.fn {
 		x = NewWF(n, tag)
+	}
+	if p.same {
+		// another instance of the component's own type (a refreshed copy): same type, other object
+		if raw, ok := n.(*N); ok {
+			cp := *raw
+			cp.Copy = tag
+			x = &cp
+		}
 	}
 	p.cache[name] = x
 	return x
@@ -441,6 +451,7 @@ type GraphProg struct {
 	Reg           []int   `json:"reg,omitempty"`  // registration order (default 0..n-1)
 	Base          []int   `json:"base,omitempty"` // base iteration order of the user names
 	Mode          int     `json:"mode,omitempty"`
+	WrapSame      bool    `json:"same_type_substitutes,omitempty"`   // the substituting processor answers another instance of the component's own type
 	WrapFunc      bool    `json:"func_shaped_substitutes,omitempty"` // the substituting processor answers closures (WF) instead of struct pointers
 	SwallowLookup bool    `json:"lookup_errors_ignored,omitempty"`   // Init ignores the error of its look-ups; every Init logs its successful completion
 	SliceOpt      bool    `json:"optional_slices,omitempty"`         // the slice points are declared required=false
@@ -808,7 +819,7 @@ func RunGraph(p *GraphProg, ch *envx.Chooser) *GraphObs {
 		nproc = 1
 	}
 	for k := 0; k < nproc; k++ {
-		pr := &Proc{Nm: fmt.Sprintf("zz-proc%d", k), Plan: map[string]int{}, cache: map[string]Iface{}, fn: p.WrapFunc, rt: rt, Snap: map[string]string{}}
+		pr := &Proc{Nm: fmt.Sprintf("zz-proc%d", k), Plan: map[string]int{}, cache: map[string]Iface{}, fn: p.WrapFunc, same: p.WrapSame, rt: rt, Snap: map[string]string{}}
 		if k == 0 {
 			for i, w := range p.Wrap {
 				pr.Plan[Name(i, p.N)] = w
